@@ -390,90 +390,78 @@ def rule_vetting(repo, rep):
 
 def rule_forms(repo, rep):
   R = 'R-FORM:sdml-empirical-matrix'
-  rep.rule(R, 'loss_matrix is sum_i y_i v_i v_i^T = diff^T Diag(y) diff and '
-           'the solver input is prior_inv + balance_param * loss_matrix '
-           '(plus sign, linear in the loss matrix)')
-  from ..ratfunc import Rat, LinM, eval_expr
-  f0 = repo.get_func('sdml._BaseSDML._fit')
-  # roles: emp_cov = the matrix handed to the solver; prior_inv = second
-  # element of the (M, M^-1) pair; loss_matrix = the other matrix in the
-  # solver input; diff = the matrix the loss matrix is built from
-  roles = {}
-  for n in ast.walk(f0.node):
-    if isinstance(n, ast.Call) and \
-            canon(repo.dotted(f0.module, n.func) or '') in GLASSO and \
-            n.args and isinstance(n.args[0], ast.Name):
-      roles[n.args[0].id] = 'emp_cov'
-    if isinstance(n, ast.Assign) and isinstance(n.targets[0], ast.Tuple) and \
-            isinstance(n.value, ast.Call) and \
-            (repo.dotted(f0.module, n.value.func) or '').endswith(
-                '_initialize_metric_mahalanobis') and \
-            len(n.targets[0].elts) == 2 and \
-            isinstance(n.targets[0].elts[1], ast.Name):
-      roles[n.targets[0].elts[1].id] = 'prior_inv'
-  ecn = next((k for k, v in roles.items() if v == 'emp_cov'), None)
-  pin = next((k for k, v in roles.items() if v == 'prior_inv'), None)
-  ecd = [v for (n, v) in guards.assignments(f0.node, ecn or '?')
-         if v is not None]
-  if ecd:
-    oth = set(x.id for x in ast.walk(ecd[0]) if isinstance(x, ast.Name)) - \
-        {pin, 'self', 'np'}
-    if len(oth) == 1:
-      roles[oth.pop()] = 'loss_matrix'
-  lmn = next((k for k, v in roles.items() if v == 'loss_matrix'), None)
-  lmd = [v for (n, v) in guards.assignments(f0.node, lmn or '?')
-         if v is not None]
-  if lmd:
-    oth = set(x.id for x in ast.walk(lmd[0]) if isinstance(x, ast.Name)) - \
-        {'y', 'np', 'self', 'pairs'}
-    if len(oth) == 1:
-      roles[oth.pop()] = 'diff'
-  f = astutil.role_view(f0, roles)
-  if f is None:
-    rep.unknown(R, 'sdml._BaseSDML._fit', site(f0), 'roles %s cannot be given '
-                'canonical names' % roles)
-    return
-  lm = [v for (n, v) in guards.assignments(f.node, 'loss_matrix')
-        if v is not None]
-  # diff^T Diag(y) diff in the algebra of matrix words (any spelling)
+  rep.rule(R, 'the matrix handed to the graphical lasso is M0^-1 + '
+           'balance_param * D^T Diag(y) D, D the pair differences (either '
+           'orientation) and M0^-1 the second element of the prior pair - '
+           'decided in the algebra of matrix words, for any spelling and any '
+           'use of temporaries')
   from ..ncalg import NC, NCEval, _diag
   from ..ratfunc import Rat as _Rat
+  f = repo.get_func('sdml._BaseSDML._fit')
+  key = 'sdml._BaseSDML._fit:'
 
   def canon_of(e):
     d_ = repo.dotted(f.module, e)
     return canon(d_) if d_ else None
-  Dm = NC.atom('diff')
+  Dm = NC.atom('D')
+  P = NC.atom('M0inv', symmetric=True)
   yv = NC({(('m', 'y', False, False),): _Rat.const(1)}, 'row')
-  nce = NCEval({'diff': Dm, 'y': yv}, {}, canon_of)
-  lv = nce.ev(lm[0]) if lm else None
-  want_l = Dm.T().mul(_diag(yv.T())).mul(Dm)
-  if isinstance(lv, NC):
-    rep.add(R, 'sdml._BaseSDML._fit:loss_matrix', 'derived' if lv == want_l
-            else 'refuted', site(f), '' if lv == want_l else 'loss_matrix is '
-            '%r, documented diff^T Diag(y) diff = %r' % (lv, want_l))
+  bp = _Rat.sym('bp')
+  params = f.params()
+  pairs_n, y_n = params[1], params[2]
+
+  def special(e):
+    # pairs[:, a] - pairs[:, b] (with or without the trailing `, :`)
+    if isinstance(e, ast.BinOp) and isinstance(e.op, ast.Sub):
+      t = [ast.unparse(x).replace(' ', '') for x in (e.left, e.right)]
+      forms = [('%s[:,0]' % pairs_n, '%s[:,1]' % pairs_n),
+               ('%s[:,0,:]' % pairs_n, '%s[:,1,:]' % pairs_n)]
+      for a, b in forms:
+        if t in ([a, b], [b, a]):
+          return Dm
+    return None
+  ev = NCEval({y_n: yv}, {'self.balance_param': bp}, canon_of,
+              special=special)
+  solver_arg = None
+  seen_prior = False
+  for s_ in f.node.body:
+    calls = [c for c in ast.walk(s_) if isinstance(c, ast.Call) and
+             canon(repo.dotted(f.module, c.func) or '') in GLASSO]
+    if calls:
+      solver_arg = calls[0].args[0] if calls[0].args else None
+      break
+    if isinstance(s_, ast.Assign) and len(s_.targets) == 1:
+      t0 = s_.targets[0]
+      if isinstance(t0, ast.Tuple) and isinstance(s_.value, ast.Call) and \
+              (repo.dotted(f.module, s_.value.func) or '').endswith(
+                  '_initialize_metric_mahalanobis') and len(t0.elts) == 2 and \
+              isinstance(t0.elts[1], ast.Name):
+        ev.mats[t0.elts[1].id] = P
+        seen_prior = True
+      elif isinstance(t0, ast.Name) and t0.id not in (pairs_n, y_n):
+        v = ev.ev(s_.value)
+        if isinstance(v, NC):
+          ev.mats[t0.id] = v
+        elif isinstance(v, _Rat):
+          ev.scalars[t0.id] = v
+        else:
+          ev.mats.pop(t0.id, None)
+  if solver_arg is None or not seen_prior:
+    rep.unknown(R, key + 'emp_cov', site(f), 'solver call / prior pair not '
+                'found')
+    return
+  got = ev.ev(solver_arg)
+  loss = Dm.T().mul(_diag(yv.T())).mul(Dm)
+  want = P.add(loss.scale(bp))
+  if not isinstance(got, NC):
+    rep.unknown(R, key + 'emp_cov', site(f), 'solver input %s is outside the '
+                'evaluated matrix forms' % ast.unparse(solver_arg))
+  elif got == want:
+    rep.derived(R, key + 'emp_cov', site(f),
+                sample=dict(rule=R, normal_form=repr(got)))
   else:
-    rep.unknown(R, 'sdml._BaseSDML._fit:loss_matrix', site(f),
-                'loss_matrix = %s is outside the evaluated matrix forms'
-                % (ast.unparse(lm[0]) if lm else None))
-  df = [v for (n, v) in guards.assignments(f.node, 'diff') if v is not None]
-  okd = df and ast.unparse(df[0]) in ('pairs[:, 0] - pairs[:, 1]',
-                                      'pairs[:, 1] - pairs[:, 0]',
-                                      'pairs[:, 0, :] - pairs[:, 1, :]',
-                                      'pairs[:, 1, :] - pairs[:, 0, :]')
-  rep.add(R, 'sdml._BaseSDML._fit:diff', 'derived' if okd else 'unknown',
-          site(f), '' if okd else 'diff = %s not recognised'
-          % (ast.unparse(df[0]) if df else None))
-  ec = [v for (n, v) in guards.assignments(f.node, 'emp_cov') if v is not None]
-  v = eval_expr(ec[0], {'self.balance_param': 'bp'},
-                {'prior_inv': 'P', 'loss_matrix': 'Lm'}) if ec else None
-  want = LinM.atom('P') + LinM.atom('Lm').scale(Rat.sym('bp'))
-  if v is None:
-    rep.unknown(R, 'sdml._BaseSDML._fit:emp_cov', site(f), 'emp_cov not '
-                'derivable')
-  else:
-    rep.add(R, 'sdml._BaseSDML._fit:emp_cov', 'derived' if v == want else
-            'refuted', site(f), '' if v == want else 'solver input is %r, '
-            'documented %r' % (v, want))
+    rep.refuted(R, key + 'emp_cov', site(f), 'the solver input is %r, '
+                'documented %r' % (got, want))
 
 
 def check(repo, rep, tier):
